@@ -225,3 +225,46 @@ Proof.
   - intros i f a Hf Hh Hr. unfold step. rewrite P, Hf, Hr, Hh. cbn [andb].
     destruct (H1 _ _ Hf) as (g & Eg & _). rewrite Eg. destruct a; eexists; reflexivity.
 Qed.
+
+(* ---- the coordinator connection layer ---- *)
+Lemma deadline_of_call_spec : forall c,
+  (deadline_of_call c = DTimeoutRebalance <-> c = CJoinGroup) /\
+  (deadline_of_call c = DTimeoutSession <-> c = CSyncGroup) /\
+  (deadline_of_call c = DTimeout <-> c <> CJoinGroup /\ c <> CSyncGroup).
+Proof. destruct c; cbn; repeat split; intros; try discriminate; try congruence; try tauto; destruct H; congruence. Qed.
+
+Lemma deadline_ms_spec : forall t r s c,
+  t <= deadline_ms t r s c /\
+  (c <> CJoinGroup -> c <> CSyncGroup -> deadline_ms t r s c = t) /\
+  deadline_ms t r s CHeartbeat = t /\ deadline_ms t r s CLeaveGroup = t /\
+  deadline_ms t r s CJoinGroup = t + r /\ deadline_ms t r s CSyncGroup = t + s.
+Proof.
+  intros t r s c. split; [destruct c; cbn; lia|]. split; [|repeat split].
+  intros H1 H2. destruct c; cbn; congruence.
+Qed.
+
+Lemma connect_tries_all : forall up,
+  (connect up = None <-> forall b, In b up -> b = false) /\
+  (forall i, connect up = Some i ->
+     nth_error up i = Some true /\ forall j, j < i -> nth_error up j = Some false).
+Proof.
+  induction up as [|b t [IH1 IH2]]; cbn [connect].
+  - split; [split; [intros _ b []|reflexivity]|discriminate].
+  - destruct b.
+    + split; [split; [discriminate|]|].
+      * intro H. specialize (H true (or_introl eq_refl)). discriminate.
+      * intros i H. inversion H; subst. split; [reflexivity|]. intros j Hj. lia.
+    + split.
+      * destruct (connect t) eqn:E; cbn [option_map]; split; try discriminate.
+        -- intro H. exfalso. assert (X : Some n = None) by (apply IH1; intros b Hb; apply H; right; exact Hb).
+           discriminate X.
+        -- intros _ b [Hb|Hb]; [congruence|]. apply IH1; auto.
+        -- reflexivity.
+      * intros i H. destruct (connect t) as [k|] eqn:E; cbn [option_map] in H; [|discriminate].
+        inversion H; subst. destruct (IH2 k eq_refl) as [A B]. split; [exact A|].
+        intros [|j] Hj; [reflexivity|]. cbn. apply B. lia.
+Qed.
+
+Lemma dial_attempts_spec : forall up,
+  dial_attempts up <= length up \/ (exists i, connect up = Some i /\ dial_attempts up = S i).
+Proof. intro up. unfold dial_attempts. destruct (connect up) eqn:E; [right; eauto|left; lia]. Qed.
